@@ -301,6 +301,7 @@ class Executor:
                 ret = end.env.get(YIELDED, ('list', ()))      # the generator object stands for the sequence it yields
             normal = T.mk_or([g for g, _ in rets]) if any(e.kind == 'raise' for e in run.events) \
                 else TRUE
+            end.env['__inplace__'] = tuple(sorted(run.inplace_params))
             summ = Summary(func, run.events, ret, end.env, dict(self.loops), binding, normal)
         finally:
             self._stack.pop()
@@ -330,6 +331,8 @@ class _Run:
         self._cur_state = None
         self.break_guards: list = []
         self.declared_global: set = set()
+        self.rebound: set = set()          # local names given a new object by a plain assignment
+        self.inplace_params: set = set()   # parameters whose object was modified in place (and never rebound before)
 
     # ------------------------------------------------------------------ events
     def emit(self, kind, node, st, **kw) -> Event:
@@ -401,12 +404,17 @@ class _Run:
         if isinstance(recv_ast, ast.Name) and tag(t) == 'mcall':
             kw = tuple(k for k in t[4] if k[0] != 'inplace')
             st.env[recv_ast.id] = ('mcall', recv, meth, t[3], kw)
+            if recv_ast.id in self.func.params and recv_ast.id not in self.rebound:
+                self.inplace_params.add(recv_ast.id)
 
     def st_Assign(self, s, st):
         v = self.ev(s.value, st)
         self.emit('assign', s, st, value=v)
         for tgt in s.targets:
             self.assign(tgt, v, st, s)
+            for n in ast.walk(tgt):
+                if isinstance(n, ast.Name) and isinstance(n.ctx, ast.Store):
+                    self.rebound.add(n.id)
         return st
 
     def st_AnnAssign(self, s, st):
@@ -495,6 +503,8 @@ class _Run:
             self.emit('aug' if aug else 'store', s, st, target=target, base=base, value=v)
             if isinstance(base_ast, ast.Name) and tag(T.root(base)) not in ('g',):
                 st.env[base_ast.id] = ('upd', base, _rebase(target, base), v)
+                if base_ast.id in self.func.params and base_ast.id not in self.rebound:
+                    self.inplace_params.add(base_ast.id)
             return
         raise AnalysisError('E2', f'unsupported assignment target at {self.func.loc(s)}')
 
@@ -1656,6 +1666,21 @@ class _Run:
                 new_val = summ.env.get(nm)
                 if new_val is not None and new_val != old_val and nm in st.env:
                     st.env[nm] = new_val
+        # a helper that works in place on a frame / list it was handed (`sort_by_base(pdf)`: pdf.sort_values(inplace=True))
+        # has modified the caller's object: the caller's local now denotes the modified object
+        if isinstance(node, ast.Call) and summ.env.get('__inplace__'):
+            a1 = f.node.args
+            pnames = [x.arg for x in a1.posonlyargs + a1.args]
+            if recv is not None and not f.is_static and pnames:
+                pnames = pnames[1:]
+            arg_asts = dict(zip(pnames, node.args))
+            arg_asts.update({k.arg: k.value for k in node.keywords if k.arg})
+            for nm in summ.env['__inplace__']:
+                aast = arg_asts.get(nm)
+                new_val = summ.env.get(nm)
+                if isinstance(aast, ast.Name) and new_val is not None and aast.id in st.env and \
+                        st.env[aast.id] == binding.get(nm) and new_val != st.env[aast.id]:
+                    st.env[aast.id] = new_val
         if recv is not None and tag(recv) == 'record' and not f.is_static:
             a0 = f.node.args
             first = (a0.posonlyargs + a0.args)[0].arg if (a0.posonlyargs + a0.args) else None
